@@ -95,6 +95,9 @@ def SEGLOG_MAX_RECORD_PAYLOAD_SIZE : Nat := 1073741824
 /-- nomt/src/lib.rs: `const MAX_COMMIT_CONCURRENCY: usize = 64;` -/
 def MAX_COMMIT_CONCURRENCY : Nat := 64
 
+/-- nomt/src/io/mod.rs: `pub(crate) const MAX_IO_ATTEMPTS: usize = 16;` -/
+def MAX_IO_ATTEMPTS : Nat := 16
+
 /-- nomt/src/store/meta.rs: `pub(crate) const MAGIC: [u8; 4] = *b"NOMT";` read as a little-endian u32 -/
 def META_MAGIC : Nat := 1414352718
 
